@@ -26,7 +26,7 @@ package main
 //   over bool, the integer types (int, rune, byte, uint32, uint64, named ones such as
 //   itemType, ast.Pos, ast.AutoescapeType), string, []byte, slices and maps of those,
 //   struct parameters / receivers that are only read (field x.f becomes parameter v_x_f),
-//   and data.Value as an abstract type V (kind test through a parameter v_kind : V -> Z,
+//   and data.Value as an abstract type V (kind test through a parameter val_kind : V -> Z,
 //   data.Undefined{} / data.Null{} through parameters).
 //   Expressions: == != < <= > >= && || ! + - * / % & | ^ << >> &^, conversions, len,
 //   s[i], m[k] for parameter maps and package-level map literals, rune / string / int
@@ -37,7 +37,7 @@ package main
 //   unicode.IsLetter / IsDigit / IsSpace as function parameters uni_letter ...).
 //
 // SEMANTICS
-//   * every Go integer is a Coq Z.  Comparisons and constants need no care.  + - * and
+//   * int and uint are 64 bits wide (the platforms the harness runs on); every Go integer is a Coq Z.  Comparisons and constants need no care.  + - * and
 //     unary - on a typed integer are emitted with the wrap of that type written out
 //     (go_wrap_s 64 (...) / go_wrap_u 32 (...)), << on every integer type likewise, a
 //     narrowing conversion wraps, / and % are accepted only with a non-zero constant
@@ -50,7 +50,8 @@ package main
 //   * maps are association lists (first match); package-level map literals are emitted as
 //     src_<pkg>_<var> in source order (Go rejects duplicate constant keys).
 //   * local variables and parameters are named v_<name>[_<version>]: an assignment is a
-//     new let.  Control flow is translated by continuation: `if c { A }; rest` becomes
+//     new let.  Everything else the translator binds lives in other name spaces (val_*, uni_*,
+//     f_*, o<n>, V), so no Go name can capture it.  Control flow is translated by continuation: `if c { A }; rest` becomes
 //     `if c then [A; rest] else [rest]`.
 
 import (
